@@ -357,6 +357,16 @@ def caf_variants(b, rng):
     v.append(("rate-1e12", b[:20] + struct.pack(">d", 1e12) + b[28:]))
     v.append(("desc-size-40", b[:12] + be(8, 40) + b[20:52] + bytes(8) + b[52:]))
     v.append(("data-size--1", b[:dp + 4] + be(8, -1) + b[dp + 12:]))
+    # size -1 = "the audio data runs to the end of the file" (KF-CAF-DATA-MINUS-ONE, repaired): with bytes added behind the audio, with the
+    # file ending inside / right behind the edit count; -2 and a -1 on another chunk are still refused
+    m1 = b[:dp + 4] + be(8, -1) + b[dp + 12:]
+    v.append(("data-size--1-trailing-3", m1 + bytes(rng.randrange(1, 256) for _ in range(3))))
+    v.append(("data-size--1-trailing-16", m1 + bytes(rng.randrange(1, 256) for _ in range(16))))
+    v.append(("data-size--1-no-audio", m1[:dp + 16]))
+    v.append(("data-size--1-cut-edit", m1[:dp + 14]))
+    v.append(("data-size--1-cut-size", m1[:dp + 12]))
+    v.append(("data-size--2", b[:dp + 4] + be(8, -2) + b[dp + 12:]))
+    v.append(("free-size--1", b[:fp + 4] + be(8, -1) + b[fp + 12:]))
     v.append(("data-size-huge", b[:dp + 4] + be(8, 1 << 40) + b[dp + 12:]))
     v.append(("data-size-0", b[:dp + 4] + be(8, 0) + b[dp + 12:]))
     v.append(("data-size-3", b[:dp + 4] + be(8, 3) + b[dp + 12:]))
